@@ -601,6 +601,9 @@ class ManifestContext:
             if isinstance(pos, str):
                 # e.g. a videoCorruption time such as "00:00:20Z"
                 pos = from_isodatetime(pos)
+                if pos is not None and not isinstance(pos, (datetime.time, datetime.datetime)):
+                    # e.g. a duration
+                    raise ValueError(f'Invalid time "{item[1]}"')
             if isinstance(pos, int):
                 drop_seg = pos
             elif pos is None or availabilityStartTime is None:
